@@ -68,3 +68,37 @@ func Sleep(d Duration) {
 }
 
 func Unix(sec, nsec int64) Time { return time.Unix(sec, nsec) }
+
+// After, NewTimer, Tick and AfterFunc: the sequential model of the wallet / tonconnect code has one thread, so a wait of
+// d is "the clock moves by d, then the channel is ready" (the same as Sleep(d)); a context that is already done is
+// still observable by the caller's select because both channels are ready then.
+func After(d Duration) <-chan Time {
+	Sleep(d)
+	ch := make(chan Time, 1)
+	ch <- Now()
+	return ch
+}
+
+// Timer mirrors time.Timer for the sequential model.
+type Timer struct {
+	C <-chan Time
+}
+
+func NewTimer(d Duration) *Timer { return &Timer{C: After(d)} }
+func (t *Timer) Stop() bool      { return false }
+func (t *Timer) Reset(d Duration) bool {
+	t.C = After(d)
+	return false
+}
+
+func AfterFunc(d Duration, f func()) *Timer {
+	Sleep(d)
+	f()
+	return &Timer{C: make(chan Time)}
+}
+
+func Date(year int, month Month, day, hour, min, sec, nsec int, loc *time.Location) Time {
+	return time.Date(year, month, day, hour, min, sec, nsec, loc)
+}
+
+var UTC = time.UTC
